@@ -16,6 +16,8 @@ CONSTANTS
   SaveLocks = TRUE
   TruncFirst = FALSE
   UnlinkLockWhenFinal = FALSE
+  Kinds = {"inc", "blind"}
+  KeepAbsentFields = FALSE
   StatBeforeLock = FALSE
   FreshUpdates = FALSE
   Reread = TRUE
